@@ -153,18 +153,22 @@ func autoBufferMode(maxSize int, dir string) func(io.Reader) (buffer.Buffer, err
 	return func(r io.Reader) (buffer.Buffer, error) {
 		// First try to read up to N bytes.
 		initial := make([]byte, maxSize)
-		actualSize, err := io.ReadFull(r, initial)
-		if err != nil {
-			if err == io.ErrUnexpectedEOF {
+		actualSize := 0
+		for actualSize < maxSize {
+			n, err := r.Read(initial[actualSize:])
+			actualSize += n
+			if err == io.EOF {
+				// The reader itself reported the end of the message. This is
+				// not the same as io.ErrUnexpectedEOF, which the SMTP data
+				// reader returns when the connection is lost in the middle of
+				// the message: such a message must not be accepted.
 				log.Debugln("autobuffer: keeping the message in RAM (read", actualSize, "bytes, got EOF)")
 				return buffer.MemoryBuffer{Slice: initial[:actualSize]}, nil
 			}
-			if err == io.EOF {
-				// Special case: message with empty body.
-				return buffer.MemoryBuffer{}, nil
+			if err != nil {
+				// Some I/O error happened, bail out.
+				return nil, err
 			}
-			// Some I/O error happened, bail out.
-			return nil, err
 		}
 		if actualSize < maxSize {
 			// Ok, the message is smaller than N. Make a MemoryBuffer and
